@@ -122,42 +122,167 @@ class C17(Property):
                    'popitem clear (re-running __init__ is not an operation of the statement)']
     CORRESPONDENCE_NAME = ('C17.Driver (OneToOne / ManyToMany by value AND heap-level with set-object identities / '
                            'FrozenDict models) vs boltons.dictutils')
-    EXTRA_TRUSTED = ['C17 translator (regen): AST scan of class FrozenDict for names bound to _raise_frozen_typeerror, '
-                     'and of class OneToOne for the methods it defines itself']
+    EXTRA_TRUSTED = ['C17 translator (regen): the evaluated classes FrozenDict / OneToOne (what each mutator name resolves to '
+                     'through the MRO before dict) plus a static check of the resolved function: straight-line, '
+                     'effect-free, closed by one raise of an exception class']
 
     # ------------------------------------------------------------------ translator
+    # The tables are read off the EVALUATED classes (what the interpreter resolves `FrozenDict.clear` /
+    # `OneToOne.__ior__` to), not off the shape of the class body: names bound one by one, through a helper, a
+    # factory, a loop over names or a mixin all give the same table.  What is decided statically is only whether
+    # the function a mutator name resolves to is an unconditional raiser (see `_raiser_class`).
+    PURE_BUILTINS = ('type', 'str', 'repr', 'len', 'format', 'id', 'isinstance', 'getattr')
+
+    @classmethod
+    def _pure(cls, e, fn, local):
+        """expression without effects on the object: names, attributes, constants, formatting, containers and
+        calls of a few builtins (not shadowed) - enough for building an error message"""
+        ok = lambda x: cls._pure(x, fn, local)
+        if e is None or isinstance(e, (ast.Constant, ast.Name)):
+            return True
+        if isinstance(e, ast.Attribute):
+            return ok(e.value)
+        if isinstance(e, ast.BinOp):
+            return ok(e.left) and ok(e.right)
+        if isinstance(e, ast.JoinedStr):
+            return all(ok(v) for v in e.values)
+        if isinstance(e, ast.FormattedValue):
+            return ok(e.value) and ok(e.format_spec)
+        if isinstance(e, (ast.Tuple, ast.List, ast.Set)):
+            return all(ok(v) for v in e.elts)
+        if isinstance(e, ast.Dict):
+            return all(ok(v) for v in e.keys) and all(ok(v) for v in e.values)
+        if isinstance(e, ast.IfExp):
+            return ok(e.test) and ok(e.body) and ok(e.orelse)
+        if isinstance(e, ast.Compare):
+            return ok(e.left) and all(ok(v) for v in e.comparators)
+        if isinstance(e, ast.BoolOp):
+            return all(ok(v) for v in e.values)
+        if isinstance(e, ast.Subscript):
+            return ok(e.value) and ok(e.slice)
+        if isinstance(e, ast.Call):
+            args = all(ok(a) for a in e.args) and all(ok(k.value) for k in e.keywords)
+            f = e.func
+            if isinstance(f, ast.Name) and f.id in cls.PURE_BUILTINS:
+                import builtins
+                shadowed = f.id in local or f.id in fn.__globals__ or f.id in fn.__code__.co_freevars
+                return args and not shadowed and hasattr(builtins, f.id)
+            if isinstance(f, ast.Attribute) and f.attr in ('format', 'join') and isinstance(f.value, ast.Constant) \
+                    and isinstance(f.value.value, str):
+                return args
+            return False
+        return False
+
+    @staticmethod
+    def _resolve(fn, expr):
+        """the object a Name / dotted Name in `fn` refers to (closure cell, module global, builtin)"""
+        import builtins
+        if isinstance(expr, ast.Attribute):
+            base = C17._resolve(fn, expr.value)
+            return getattr(base, expr.attr, None) if base is not None else None
+        if not isinstance(expr, ast.Name):
+            return None
+        if expr.id in fn.__code__.co_freevars and fn.__closure__:
+            try:
+                return fn.__closure__[fn.__code__.co_freevars.index(expr.id)].cell_contents
+            except ValueError:
+                return None
+        if expr.id in fn.__globals__:
+            return fn.__globals__[expr.id]
+        return getattr(builtins, expr.id, None)
+
+    @classmethod
+    def _raiser_class(cls, fn):
+        """`fn` (a plain Python function object) does nothing but raise: its body is, after an optional docstring,
+        a run of assignments of effect-free expressions to local names, closed by ONE `raise X(...)` / `raise X`
+        with effect-free arguments, where X resolves to an exception class.  No branch, loop, call of anything
+        but a few builtins, no return / yield.  Returns that class, else None."""
+        import inspect
+        import textwrap
+        import types
+        if not isinstance(fn, types.FunctionType):
+            return None
+        try:
+            tree = ast.parse(textwrap.dedent(inspect.getsource(fn)))
+        except Exception:
+            return None
+        if len(tree.body) != 1 or not isinstance(tree.body[0], ast.FunctionDef) or tree.body[0].name != fn.__code__.co_name:
+            return None
+        fdef = tree.body[0]
+        if fn.__code__.co_flags & (inspect.CO_GENERATOR | inspect.CO_COROUTINE | inspect.CO_ASYNC_GENERATOR):
+            return None
+        a = fdef.args
+        local = {x.arg for x in a.posonlyargs + a.args + a.kwonlyargs} | {x.arg for x in (a.vararg, a.kwarg) if x}
+        # every call form must reach the body: (self, *a, **kw) or something at least as accepting is not
+        # demanded here - a call the signature rejects raises TypeError as well
+        body = list(fdef.body)
+        if body and isinstance(body[0], ast.Expr) and isinstance(body[0].value, ast.Constant):
+            body = body[1:]
+        if not body or not isinstance(body[-1], ast.Raise) or body[-1].exc is None:
+            return None
+        for st in body[:-1]:
+            if not (isinstance(st, ast.Assign) and all(isinstance(t, ast.Name) for t in st.targets)
+                    and cls._pure(st.value, fn, local)):
+                return None
+            local |= {t.id for t in st.targets}
+        exc = body[-1].exc
+        if not cls._pure(body[-1].cause, fn, local):
+            return None
+        if isinstance(exc, ast.Call):
+            if not (all(cls._pure(x, fn, local) for x in exc.args) and all(cls._pure(k.value, fn, local) for k in exc.keywords)):
+                return None
+            exc = exc.func
+        if isinstance(exc, ast.Name) and exc.id in local:
+            return None
+        k = cls._resolve(fn, exc)
+        return k if isinstance(k, type) and issubclass(k, BaseException) else None
+
+    @staticmethod
+    def _own_callables(klass, stop):
+        """names the class (or a base before `stop` in its MRO) binds to something callable, first binding wins"""
+        out = []
+        for c in klass.__mro__:
+            if c is stop:
+                break
+            for n, v in c.__dict__.items():
+                if (callable(v) or isinstance(v, (classmethod, staticmethod))) and n not in out:
+                    out.append(n)
+        return out
+
     def regen(self):
-        src = open(os.path.join(REPO, 'boltons', 'dictutils.py')).read()
-        tree = ast.parse(src)
-        cls = [n for n in tree.body if isinstance(n, ast.ClassDef) and n.name == 'FrozenDict'][0]
-        blocked, raises = [], None
-        for n in cls.body:
-            if isinstance(n, ast.Assign) and isinstance(n.value, ast.Name) and n.value.id == '_raise_frozen_typeerror':
-                blocked += [t.id for t in n.targets if isinstance(t, ast.Name)]
-            if isinstance(n, ast.FunctionDef) and n.name == '_raise_frozen_typeerror':
-                body = [s for s in n.body if not (isinstance(s, ast.Expr) and isinstance(s.value, ast.Constant))]
-                if len(body) == 1 and isinstance(body[0], ast.Raise):
-                    e = body[0].exc
-                    if isinstance(e, ast.Call):
-                        e = e.func
-                    if isinstance(e, ast.Name):
-                        raises = e.id
-        # a method the class defines itself is not the raiser any more
-        own = {n.name for n in cls.body if isinstance(n, ast.FunctionDef)}
-        blocked = [b for b in blocked if b not in own]
-        # OneToOne is a dict subclass: a mutating dict method the class body does not define itself is inherited
-        # and writes one side only (that is what `|=` did before d30f0de)
-        oto = [n for n in tree.body if isinstance(n, ast.ClassDef) and n.name == 'OneToOne'][0]
-        oto_own = [n.name for n in oto.body if isinstance(n, ast.FunctionDef)]
+        import inspect
+        from bv.common import ensure_repo_on_path
+        blocked, raises, oto_own = [], '?', []
+        try:
+            ensure_repo_on_path()
+            from boltons import dictutils
+            FD, OTO = dictutils.FrozenDict, dictutils.OneToOne
+            kinds = set()
+            for n in self._own_callables(FD, dict):
+                k = self._raiser_class(inspect.getattr_static(FD, n))
+                if k is not None:
+                    blocked.append(n)
+                    # `except TypeError` is what the statement's "raises TypeError" means: a subclass will do
+                    kinds.add('TypeError' if issubclass(k, TypeError) else k.__name__)
+            if blocked:
+                raises = kinds.pop() if len(kinds) == 1 else '?'
+            oto_own = self._own_callables(OTO, dict)
+        except Exception as e:      # the module does not import: empty tables, the proof side does not check
+            self.stats['regen_error'] = repr(e)[:200]
+        # the running interpreter's dict: every method it has must be classified by the model (mutator or not)
+        dict_methods = [n for n, v in dict.__dict__.items() if callable(v) or isinstance(v, (classmethod, staticmethod))]
+        q = lambda xs: ', '.join('"%s"' % b for b in xs)
         text = ('/- GENERATED by harness/bv/props/c17.py (regen) from boltons/dictutils.py - do not edit.\n'
-                '   FrozenDict: the names the class body binds to `_raise_frozen_typeerror`, and the exception\n'
-                '   class that function raises.  OneToOne: the methods the class body defines itself. -/\n'
+                '   FrozenDict: the names the class (evaluated; bases before dict included) binds to a function that\n'
+                '   does nothing but raise, and the exception class raised (TypeError = TypeError or a subclass).\n'
+                '   OneToOne: the callables the class (bases before dict included) binds itself.\n'
+                '   dictMethods: the callables in `dict.__dict__` of the interpreter the check runs under. -/\n'
                 'namespace C17.Generated\n\n'
                 'def frozenBlocked : List String :=\n  [%s]\n\n'
                 'def frozenRaises : String := "%s"\n\n'
                 'def otoDefined : List String :=\n  [%s]\n\n'
-                'end C17.Generated\n') % (', '.join('"%s"' % b for b in blocked), raises or '?',
-                                          ', '.join('"%s"' % b for b in oto_own))
+                'def dictMethods : List String :=\n  [%s]\n\n'
+                'end C17.Generated\n') % (q(blocked), raises, q(oto_own), q(dict_methods))
         return {'C17_Frozen.lean': text}
 
     # ------------------------------------------------------------------ generation
@@ -1082,7 +1207,8 @@ class C17(Property):
             except CaseTimeout:
                 raise
             except Exception as e:
-                rec['exc'] = exc_name(e)
+                # "raises TypeError" = what `except TypeError` catches: a subclass is a TypeError too
+                rec['exc'] = 'TypeError' if (o == 'mut' and isinstance(e, TypeError)) else exc_name(e)
             rec['items'] = self._fitems(fd)
             out.append(rec)
         return out
